@@ -205,6 +205,31 @@ def run_shard(spec, tier, seed):
                 elif outc != "TypeError":
                     V(f"invalid-name-set-wrong-exception constructor={cls.__name__}", names=names, exc=outc)
         res.cell("object-classes", key)
+        # ---- the order in which the keywords are written does not matter (accepting, rejecting, what is stored)
+        if len(names) > 1:
+            def outcome(ctor, kv):
+                try:
+                    v_ = ctor(**kv)
+                except TypeError:
+                    return ("TypeError",)
+                except Exception as e:
+                    return (type(e).__name__,)
+                return ("ok", type(v_).__name__, B.obj_stored(v_)[0], tuple(_bits(x) for x in B.obj_stored(v_)[1]))
+            vd = dict(vals)
+            shuffled = list(names)
+            r.shuffle(shuffled)
+            orders = {"reversed": list(names[::-1]), "shuffled": shuffled, "rotated": list(names[1:] + names[:1])}
+            for cname_, ctor in [("obj", vector.obj)] + [(c.__name__, c) for c in objclasses.values()]:
+                base_out = outcome(ctor, {n: vd[n] for n in names})
+                for oname, order in orders.items():
+                    if tuple(order) == names:
+                        continue
+                    res.evaluations += 1
+                    got_out = outcome(ctor, {n: vd[n] for n in order})
+                    if got_out != base_out:
+                        V(f"outcome-depends-on-keyword-order constructor={'obj' if cname_ == 'obj' else 'object-class'}",
+                          names=names, order=order, cls=cname_, canonical_order=base_out[:2], this_order=got_out[:2])
+            res.cell("keyword-order", key)
         # hostile values on valid sets
         if ref is not None:
             for bad in (True, "1.0", None, 1 + 2j, [1.0]):
